@@ -4,6 +4,7 @@ import (
 	"bytes"
 	"context"
 	"encoding/json"
+	"errors"
 	"fmt"
 	"net/url"
 	"os"
@@ -144,6 +145,9 @@ func (p *MicrosoftEntraIDProvider) redeemWithFederatedToken(ctx context.Context,
 
 	if err := json.Unmarshal(body, &token); err != nil {
 		return nil, err
+	}
+	if token == nil {
+		return nil, errors.New("token exchange response did not contain a token")
 	}
 
 	// create session using new token and generic OIDC provider
